@@ -49,6 +49,12 @@ Theorem header_cache_contains_faults : forall ops s, HeaderCache.inv s -> Forall
   let '(s', es) := HeaderCache.run s ops in HeaderCache.inv s' /\ Forall (ext_ok (hlen s')) es.
 Proof. exact header_cache_safe. Qed.
 
+(** skipping an oversized header chunk on a pipe (header_seek reads and discards): exactly ceil (n / 16 KiB) reads asking for n
+    bytes in total, whatever the reads deliver -- in particular it ends when they deliver nothing *)
+Theorem pipe_skip_is_bounded : forall skip delivered, 0 <= skip ->
+  pipe_skip skip delivered = ((skip + JUNK - 1) / JUNK, skip, 0).
+Proof. exact pipe_skip_terminates. Qed.
+
 (** a dead layer ends a transfer after one call *)
 Theorem dead_layer_does_not_spin : forall bytes items, 0 < bytes -> 0 < items ->
   ncalls (xfer_desc bytes items [OXfer 0]) = 1 /\ ncalls (xfer_desc bytes items [OErr]) = 1 /\ FaultIO.ret (xfer_desc bytes items [OErr]) = 0.
@@ -63,3 +69,4 @@ Print Assumptions read_contains_faults.
 Print Assumptions write_contains_faults.
 Print Assumptions accepted_items_survive_failed_writes.
 Print Assumptions header_cache_contains_faults.
+Print Assumptions pipe_skip_is_bounded.
